@@ -91,16 +91,23 @@ where
             }
 
             match handle.as_mut().poll_next(cx) {
-                Poll::Ready(Some(sock)) => match sock {
-                    Socket::Stream(st) => {
-                        stream.as_mut().insert(*next_stream_id, st);
-                        *next_stream_id += 1;
+                Poll::Ready(Some(sock)) => {
+                    match sock {
+                        Socket::Stream(st) => {
+                            stream.as_mut().insert(*next_stream_id, st);
+                            *next_stream_id += 1;
+                        }
+                        Socket::Sink(si) => {
+                            sink.as_mut().insert(*next_sink_id, si);
+                            *next_sink_id += 1;
+                        }
                     }
-                    Socket::Sink(si) => {
-                        sink.as_mut().insert(*next_sink_id, si);
-                        *next_sink_id += 1;
-                    }
-                },
+
+                    // Keep draining the channel: only a `Pending` from it registers our waker, and
+                    // without that a socket (or the shutdown signal) queued behind this one would
+                    // not be noticed until some publisher happens to send a message.
+                    continue;
+                }
                 // If handle is terminated, the stream is dead
                 Poll::Ready(None) => {
                     ready!(sink.as_mut().poll_flush(cx)).unwrap();
